@@ -33,6 +33,7 @@ START_METHODS = True
 INSTR_HOT = ("FunctorPool.imap", "FunctorPool.imap_unordered", "FunctorPool._get_results", "FunctorPool.SendWorkThread.run",
              "FactoryFunctorPool.ReplaceWorkerThread.run", "FactoryFunctorPool.ReplaceWorkerThread.stop", "CMThread.stop")
 INSTR_SAMPLE = 70
+INSTR_AUTO = ("FunctorPool.*", "FactoryFunctorPool.*", "CMThread.*")
 
 
 def gen_base(rng, tier, index):
